@@ -303,7 +303,7 @@ mutant('C12', 'c12-borrow-waits-for-other-amount', RESOURCE,
 mutant('C12', 'c12-claim-test-inverted', RESOURCE,
        "        if not self._resources._available >= self._debits:\n            raise ResourcesUnavailable(self)",
        "        if self._resources._available >= self._debits:\n            raise ResourcesUnavailable(self)",
-       'S', 'claim raises when available and waits when not')
+       'C claim', 'claim raises when available and waits when not')
 mutant('C12', 'c12-claim-postpones-first', RESOURCE,
        "        if not self._resources._available >= self._debits:\n            raise ResourcesUnavailable(self)\n        return await super().__aenter__()",
        "        await self._resources._available.set(self._resources._available.value)\n        if not self._resources._available >= self._debits:\n            raise ResourcesUnavailable(self)\n        return await super().__aenter__()",
